@@ -14,10 +14,10 @@ RULE = ('every ordered selection of <= K of the equations {X=f(Y), X=g(Y,Z), Y=h
         'findall/3 and through assertz + later read-back. At the innermost point get_value of X,Y,Z must be the fully '
         'dereferenced reference term (no bound variable anywhere inside), to_python must equal the reference value at '
         'every depth; the saved get_value results must be structurally unchanged after all generators are closed / '
-        'the query has finished (the [v.get_value() for _ in q] idiom). (3) bind/undo histories: every sequence of <= D operations "unify one of 11 equations (variable-variable links, structures, list cells with variable tails)" / "undo the most recent unification" with get_value of ALL variables taken after every operation (a lookup is itself an operation: it must not change what later lookups see) compared with the stack of active substitutions; at the end of every history the lookups are also run under every recursion limit from the current stack depth upwards (RecursionError at every depth of the dereferencing) and must afterwards give the same values. states = distinct (sequence outcome) '
+        'the query has finished (the [v.get_value() for _ in q] idiom). (3) bind/undo histories: every sequence of <= D operations "unify one of 11 equations (variable-variable links, structures, list cells with variable tails)" / "undo the most recent unification" with get_value of ALL variables taken after every operation (a lookup is itself an operation: it must not change what later lookups see) compared with the stack of active substitutions; at the end of every history the lookups are also run under every recursion limit from the current stack depth upwards (RecursionError at every depth of the dereferencing) and must afterwards give the same values. (4) long values: a list of N cells and N nested f(_) for N in {8,33,64,100,101,102,128,160}, bound one cell per equation in 3 orders through the API and outer-first by compiled recursive predicates (also through findall and assertz), the saved value walked without dereferencing at the answer and after backtracking. states = distinct (sequence outcome) '
         'observations; transitions = generator steps on the real engine; non-trivial = the value of X contains a '
         'variable that was bound after X')
-ASSUMPTIONS = ['sequences needing a cyclic term are skipped', 'to_python of a partial list is unspecified and not compared']
+ASSUMPTIONS = ['sequences needing a cyclic term are skipped', 'values nested deeper than 160 levels are not covered (get_value is recursive; the Python recursion limit is reached at about 250 levels)', 'to_python of a partial list is unspecified and not compared']
 X, Y, Z, W = V('X'), V('Y'), V('Z'), V('W')
 a, b, c = A('a'), A('b'), A('c')
 EQS = [(X, F('f', Y)), (X, F('g', Y, Z)), (Y, F('h', Z)), (Y, Z), (Z, a), (Y, b), (X, L([Y], Z)), (Z, NIL),
@@ -219,13 +219,134 @@ def anon(obs):
     return tuple(an(t) for t in obs)
 
 
+# ---- long terms built incrementally ----------------------------------------------------------
+# The values of real answers are long: a list of N cells (or N nested f(_)) whose cells are bound one
+# equation at a time, in every one of three orders.  The spine is walked iteratively, WITHOUT
+# dereferencing, so a bound variable left anywhere inside the saved value is seen.
+LONG_N = [8, 33, 64, 100, 101, 102, 128, 160]
+LONG_ORDERS = ['outer-first', 'inner-first', 'odd-then-even']
+LONG_KINDS = ['list', 'nest']
+COPY = [(F('copy', NIL, NIL), TRUE),
+        (F('copy', L([V('H')], V('T')), L([V('H')], V('T2'))), call(F('copy', V('T'), V('T2')))),
+        (F('wrap', a, A('e')), TRUE),
+        (F('wrap', F('s', V('N')), F('f', V('R'))), call(F('wrap', V('N'), V('R')))),
+        (F('copies', V('L0'), V('B')), call(F('findall', V('R'), F('copy', V('L0'), V('R')), V('B')))),
+        (F('keep', V('L0')), conj(call(F('copy', V('L0'), V('R'))), call(F('assertz', F('kept', V('R'))))))]
+
+
+def spine(v, kind):
+    """-> ('ok', n) | ('bad', position, what) for a saved value that should be the list [0..n-1] / f^n(e)"""
+    i = 0
+    while True:
+        if isinstance(v, impl.Variable):
+            return ('bad', i, 'an unbound variable' if v.get_value() is v else 'a variable (currently bound)')
+        if isinstance(v, impl.Atom):
+            return ('ok', i) if v.name() == ('[]' if kind == 'list' else 'e') else ('bad', i, 'atom %s' % v.name())
+        if not isinstance(v, impl.Functor):
+            return ('bad', i, repr(v))
+        if kind == 'list':
+            if v._name != '.' or len(v._args) != 2:
+                return ('bad', i, 'functor %s/%d' % (v._name, len(v._args)))
+            h = v._args[0]
+            if isinstance(h, impl.Variable) or h != i:
+                return ('bad', i, 'element %r' % (h,))
+            v = v._args[1]
+        else:
+            if v._name != 'f' or len(v._args) != 1:
+                return ('bad', i, 'functor %s/%d' % (v._name, len(v._args)))
+            v = v._args[0]
+        i += 1
+
+
+def check_long(kind, n, order, flavor):
+    label = '%s of %d cells, %s, %s: ' % (kind, n, order, flavor)
+    yp = impl.new_engine(impl.compile_text(show_program(COPY)))
+    if flavor == 'api':
+        vs = [yp.variable() for _ in range(n + 1)]
+        if order == 'outer-first':
+            idxs = list(range(n))
+        elif order == 'inner-first':
+            idxs = list(range(n - 1, -1, -1))
+        else:
+            idxs = list(range(1, n, 2)) + list(range(0, n, 2))
+        gens = []
+        for i in idxs + [n]:
+            if i == n:
+                rhs = yp.atom('[]' if kind == 'list' else 'e')
+            else:
+                rhs = yp.listpair(i, vs[i + 1]) if kind == 'list' else yp.functor('f', [vs[i + 1]])
+            g = iter(impl.engine.unify(vs[i], rhs))
+            next(g)
+            gens.append(g)
+        saved = impl.engine.get_value(vs[0])
+        saved2 = vs[0].get_value()
+        py = impl.engine.to_python(vs[0]) if kind == 'list' else None
+        r1 = spine(saved, kind)
+        for g in reversed(gens):
+            g.close()
+        r2 = spine(saved, kind)
+        r3 = spine(saved2, kind)
+        steps = 2 * len(gens)
+        if r1 != ('ok', n):
+            return ('violation', 'long:get_value-not-fully-dereferenced', label + 'at the innermost point the value of get_value holds %s at position %d' % (r1[2], r1[1]))
+        if py is not None and py != list(range(n)):
+            return ('violation', 'long:to_python-differs', label + 'to_python gives a list of %d elements' % len(py))
+        for r in (r2, r3):
+            if r != ('ok', n):
+                return ('violation', 'long:saved-value-changed-after-backtracking', label + 'after all generators were closed the saved value holds %s at position %d' % (r[2], r[1]))
+        return ('ok', (kind, n), steps, order != 'inner-first')
+    # compiled: recursive predicates build the answer outer-first
+    if kind == 'list':
+        arg = yp.atom('[]')
+        for i in range(n - 1, -1, -1):
+            arg = yp.listpair(i, arg)
+        name = 'copy'
+    else:
+        arg = yp.atom('a')
+        for i in range(n):
+            arg = yp.functor('s', [arg])
+        name = 'wrap'
+    rv = yp.variable()
+    collected = [rv.get_value() for _ in yp.query(name, [arg, rv])]
+    steps = 2
+    if len(collected) != 1:
+        return ('violation', 'long:answer-count', label + '%d answers' % len(collected))
+    r = spine(collected[0], kind)
+    if r != ('ok', n):
+        return ('violation', 'long:collected-answer-differs', label + 'the value collected with [v.get_value() for _ in q], read after the query, holds %s at position %d' % (r[2], r[1]))
+    if kind == 'list':
+        bv = yp.variable()
+        bags = [bv.get_value() for _ in yp.query('copies', [arg, bv])]
+        steps += 2
+        ok = len(bags) == 1 and isinstance(bags[0], impl.Functor) and len(bags[0]._args) == 2
+        r = spine(bags[0]._args[0], kind) if ok else ('bad', -1, 'no bag')
+        if r != ('ok', n):
+            return ('violation', 'long:findall-result-differs', label + 'the instance in the findall bag holds %s at position %d' % (r[2], r[1]))
+        list(yp.query('keep', [arg]))
+        kv = yp.variable()
+        back = [kv.get_value() for _ in yp.query('kept', [kv])]
+        steps += 3
+        r = spine(back[0], kind) if len(back) == 1 else ('bad', -1, '%d facts' % len(back))
+        if r != ('ok', n):
+            return ('violation', 'long:asserted-term-differs', label + 'the fact asserted from the answer reads back with %s at position %d' % (r[2], r[1]))
+    return ('ok', (kind, n), steps, True)
+
+
+def long_cases():
+    for kind in LONG_KINDS:
+        for n in LONG_N:
+            for order in LONG_ORDERS:
+                yield kind, n, order, 'api'
+            yield kind, n, 'outer-first', 'compiled'
+
+
 NSH = 32
 
 
 def plan(tier):
     kmax = 4 if tier == 'quick' else 5
     hd = 5 if tier == 'quick' else 6
-    return [(kmax, k, NSH) for k in range(NSH)] + [('hist', hd, k, 2 * NSH) for k in range(2 * NSH)]
+    return [(kmax, k, NSH) for k in range(NSH)] + [('hist', hd, k, 2 * NSH) for k in range(2 * NSH)] + [('long', k, 8) for k in range(8)]
 
 
 def run_histories(spec, acc, kind, sigprefix):
@@ -256,6 +377,24 @@ def run_shard(spec):
     acc = Acc()
     if spec[0] == 'hist':
         run_histories(spec, acc, 'lookup', 'history:stale-or-wrong-')
+        return acc
+    if spec[0] == 'long':
+        for idx, lc in enumerate(long_cases()):
+            if idx % spec[2] != spec[1]:
+                continue
+            acc.n['evaluations'] += 1
+            try:
+                with watchdog(60):
+                    r = check_long(*lc)
+            except Exception as e:  # noqa: BLE001
+                r = ('violation', 'long:raises:' + impl.exc_sig(e), '%s raised %r' % (lc, e))
+            acc.n['validated'] += 1
+            if r[0] == 'violation':
+                acc.violation(r[1], (0, idx), {'long': list(lc)}, r[2], key='long|%s' % (list(lc),))
+                continue
+            acc.n['transitions'] += r[2]
+            acc.n['nontrivial'] += 1 if r[3] else 0
+            acc.outcome(('long', r[1]))
         return acc
     kmax, k, n = spec
     for idx, seq in sequences(kmax):
@@ -289,6 +428,9 @@ def run_shard(spec):
 
 
 def replay(case):
+    if 'long' in case:
+        r = check_long(*case['long'])
+        return [(r[1], r[2])] if r[0] == 'violation' else []
     if 'history' in case:
         from .. import bindhist as bh
         r = bh.run_history(tuple(case['history']))
